@@ -63,7 +63,7 @@ def mk_block1(szx, nsteps, pa_fixed=None):
         PAT = bytes((i * 7 + 3) % 251 for i in range(1200))
         EPS = [stack.R0, stack.R1]         # same address, different port
         SEL = [(0, 0), (1, 0), (0, 1)]     # (endpoint, key): the pre-state's first assembly, other endpoint, other method+query
-        MLEN = [(True, SIZE), (True, SIZE + 1), (True, SIZE - 1), (False, SIZE - 1), (False, 0), (False, SIZE + 1), (False, SIZE)]
+        MLEN = [(True, SIZE), (True, SIZE + 1), (True, SIZE - 1), (False, SIZE - 1), (False, 0), (False, SIZE + 1), (False, SIZE), (True, 0), (True, 2 * SIZE)]
         PRE = [None, 1, 2]                 # blocks already assembled
 
         class Rec(resource.Resource):
@@ -248,12 +248,18 @@ def mk_lifetime(which):
                 self.bodies.append(bytes(request.payload))
                 return Message(code=CHANGED)
 
-        def h(d0: int, d1: int, d2: int) -> None:
+        def h(d0: int, d1: int, d2: int, prior_cycle: bool) -> None:
             assert 0 <= d0 <= 3 * MTW and 0 <= d1 <= 3 * MTW and 0 <= d2 <= 3 * MTW
             with SimLoop() as loop:
                 res = R()
                 other = R()
                 ep = remote(stack.R0)
+                if prior_cycle:
+                    # an earlier transfer that has been idle long enough for the table to drain completely once
+                    m0 = Message(code=PUT, payload=b"x" * 16, block1=(0, True, 0)) if which == "block1" else Message(code=GET, block2=(0, False, 0))
+                    m0.remote = remote(stack.R1)
+                    serve(loop, res, m0)
+                    loop.advance(3 * MTW)
 
                 def req(num, more=True):
                     if which == "block1":
@@ -297,7 +303,7 @@ def obligations(tier):
             if q and szx == 2 and pa != 1:
                 continue
             obs.append(Obligation("block1-step-szx%d-pre%d" % (szx, pa), mk_block1(szx, 1, pa), 280 if q else 900, functions=FUNCS,
-                                  symbolic={"pre-state": "2 further assemblies x {none, 1 block, 2 blocks}", "request": "selector/3 x NUM 0..3 x 7 (M, length) classes"},
+                                  symbolic={"pre-state": "2 further assemblies x {none, 1 block, 2 blocks}", "request": "selector/3 x NUM 0..3 x 9 (M, length) classes incl. empty and double-size non-final blocks"},
                                   concrete={"size exponent": szx, "first assembly in the pre-state": ["none", "1 block", "2 blocks"][pa]},
                                   stubs=["SimLoop", "pipe-level driver (render_to_pipe + error_to_message)"]))
         if not q:
@@ -309,6 +315,7 @@ def obligations(tier):
                                   concrete={"size exponent": szx, "body length index": bi}))
     for which in ("block1", "block2"):
         obs.append(Obligation("state-lifetime-%s" % which, mk_lifetime(which), 280 if q else 1200, functions=FUNCS,
-                              symbolic={"idle times before the first use and before each continuation": "3 x [0, 3*MAX_TRANSMIT_WAIT]"},
+                              symbolic={"idle times before the first use and before each continuation": "3 x [0, 3*MAX_TRANSMIT_WAIT]",
+                                        "an earlier transfer drained the table once": "bool"},
                               concrete={"MAX_TRANSMIT_WAIT": "14000 ticks (ACK_TIMEOUT 2000, factor 1, MAX_RETRANSMIT 2)"}))
     return obs
